@@ -465,7 +465,8 @@ def serverHandleH (keep : Bool) (tk : Option (List (Bytes × Bytes))) : M (Bytes
     pure (u, a)
 
 def proceedH : M Unit := write C07.status200
-def abortH : M Unit := write C07.status502
+/-- serverConnectPendingConn.Abort(_): 502 whatever the dial result -/
+def abortH (_dr : DialResult) : M Unit := write C07.status502
 
 /-! ### client -/
 
